@@ -20,10 +20,10 @@ COMP_NOTE = ("Trusted base: the thin cfg(raindb_verif) wrappers over crate-priva
 CLAIMED = {
   "C01": dict(level="model_checking", design="§5 C01",
      technique="explicit-state exhaustive enumeration of operation sequences on the real DB (fork-shared prefix DFS) vs BTreeMap model",
-     text="Exhaustive enumeration of every operation sequence up to the stated depth over small alphabets (put/delete/batch/compact_range/flush/reopen with configuration changes, byte-string keys, big values) in small-scope configurations, executed on the real database under a controlled scheduler; after every operation every key is read back and compared with a BTreeMap model. Families also start from populated LSMs (rich start, trivial-move state, overlapping / nested level-0 tables, boundary tables that split the versions of one key, levels 1..5 limited to 250 bytes through a cfg-guarded hook so that data cascades to level 6) and cover the corners of the input and option space: gap keys with a filter policy that lets every lookup through, keys of 0 / 127 / 128 / 4500 / 16384 / 40000 bytes, values on the varint boundaries, one key several times in a batch, empty batches, 128 repeated reads that exhaust a file's allowed seeks, WAL records ending 6 / 7 bytes before a block end, Bloom bits and filter policy changed across a reopen, a two-entry block cache, zero-valued size limits and a one-byte memtable budget."),
+     text="Exhaustive enumeration of every operation sequence up to the stated depth over small alphabets (put/delete/batch/compact_range/flush/reopen with configuration changes, byte-string keys, big values) in small-scope configurations, executed on the real database under a controlled scheduler; after every operation every key is read back and compared with a BTreeMap model. Families also start from populated LSMs (rich start, trivial-move state, overlapping / nested level-0 tables, boundary tables that split the versions of one key, levels 1..5 limited to 250 bytes through a cfg-guarded hook so that data cascades to level 6) and cover the corners of the input and option space: gap keys with a filter policy that lets every lookup through, keys of 0 / 127 / 128 / 4500 / 16384 / 40000 bytes, values on the varint boundaries, one key several times in a batch, empty batches, 128 repeated reads that exhaust a file's allowed seeks, WAL records ending 6 / 7 bytes before a block end, Bloom bits and filter policy changed across a reopen, a two-entry block cache, zero-valued size limits and a one-byte memtable budget. Further start states and corners: a tombstone and the older value of its key in two adjacent tables of a parent level above which a compaction grows its inputs (split-pair-parents), and the largest file and block sizes the option types admit."),
   "C07": dict(level="model_checking", design="§5 C07",
      technique="exhaustive operation-sequence enumeration on the real DB with differential before/after dumps and model comparison",
-     text="Every sequence up to the stated depth over put/delete/batch plus ranged and open-ended compact_range, flushes, snapshots and seek-triggered compaction; the full contents (latest and every live snapshot) dumped before each flush/compaction must equal the dump after it and after the background thread went idle; plus model comparison. Schedule part: thread programs in which the main thread closes the database while an automatic or manual compaction is in its merge loop (all schedules within the bound); after the reopen every acknowledged write must be there."),
+     text="Every sequence up to the stated depth over put/delete/batch plus ranged and open-ended compact_range, flushes, snapshots and seek-triggered compaction; the full contents (latest and every live snapshot) dumped before each flush/compaction must equal the dump after it and after the background thread went idle; plus model comparison. Schedule part: thread programs in which the main thread closes the database while an automatic or manual compaction is in its merge loop (all schedules within the bound); after the reopen every acknowledged write must be there. The split-pair-parents start state (see C01) is explored with ranged compactions."),
   "C10": dict(level="model_checking", design="§5 C10",
      technique="exhaustive operation-sequence enumeration on the real DB; structural invariant evaluated in every state",
      text="In every state reached by every sequence up to the stated depth (incl. reopen with changed options) the structured layout is checked: sortedness/disjointness per level >= 1, bounds order, bounds == stored first/last entry, no duplicate numbers, NumFilesAtLevel agrees with the structure and every line of the SSTables descriptor equals the line rendered from the structure (file number, size, smallest and largest internal key). A family with a 3000-byte value two levels down makes compaction outputs end at the grandparent-overlap limit while their builder is open."),
@@ -41,10 +41,10 @@ CLAIMED = {
      text="All schedules within the bound of writers applying multi-key batches (2-3 keys, rotating, group-commit-merged, delete+put, one key twice in a batch) against snapshot readers, plain gets and iterator scans (forwards and backwards on one iterator), with the named switch points inside apply_changes; every sequence-consistent observation sees all or none of each batch. Sequence part: from a state with a three-key batch, a live snapshot and 130 newer versions of the batch's middle key, every short sequence of further versions, batches, deletes, flushes and compactions; snapshot gets and scans keep showing the whole batch. Crash part: at every crash image of the covering and generated histories the recovered contents of the history's keys equal the model after some prefix of the history's operations (never part of a batch), right after the recovery, after each of three later writes to other keys and after a clean reopen."),
   "C09": dict(level="model_checking", design="§5 C09",
      technique="exhaustive operation-sequence enumeration over every public call + preemption-bounded schedule DFS; verdicts are the runtime's deadlock / step-bound / panic detectors",
-     text="Every sequence up to the stated depth over an alphabet containing every public call (incl. all descriptors, iterators, snapshots, reopen) and flush-by-fill workloads, and all schedules within the bound of writer/writer/compaction/flush programs: every execution must run to completion without deadlock, livelock (step bound) or a panic of a client call or the background thread. The parking_lot shim's reader-writer lock follows parking_lot's task-fair policy (an announced writer blocks new readers; a repeated shared acquisition on one task is a scheduling point); two iterator-creation-vs-writer programs are explored with two preemptions in the quick tier."),
+     text="Every sequence up to the stated depth over an alphabet containing every public call (incl. all descriptors, iterators, snapshots, reopen) and flush-by-fill workloads, and all schedules within the bound of writer/writer/compaction/flush programs: every execution must run to completion without deadlock, livelock (step bound) or a panic of a client call or the background thread. The parking_lot shim's reader-writer lock follows parking_lot's task-fair policy (an announced writer blocks new readers; a repeated shared acquisition on one task is a scheduling point); two iterator-creation-vs-writer programs are explored with two preemptions in the quick tier. A thread program flushes a memtable into the key gap between the inputs of a running compaction (background-thread panic H20); fault programs with a rotating writer whose WAL append fails during a manual compaction."),
   "C11": dict(level="model_checking", design="§5 C11",
      technique="exhaustive operation-sequence enumeration with a directory-listing oracle after each reclamation opportunity + schedule DFS of readers vs deletion under strict unlink",
-     text="At every node of every sequence up to the stated depth (snapshots, iterators, seek compactions, reopen) where nothing pins old versions, the three directories must hold exactly CURRENT, LOCK, the current manifest, needed WALs and the tables of the current layout; live tables must exist whenever a snapshot/iterator is held; no read concurrent with compaction + deletion touches a removed file. Schedule x crash: a crash image recovered at every file removal of every explored schedule holds the acknowledged writes. Schedule x fault: a reader whose own table reads fail races with flushes/compactions installing versions; afterwards (fault disarmed, all compacted, background idle) the directories again hold exactly the needed files; the same without a fault for readers whose answer is 'not found'. Crash part: every crash image of the covering histories is recovered and the directories must be exact as soon as the recovery's background work is idle, before any operation, and again after probe writes and a flush. Every crash image is also recovered with other options than it was written with (log reuse flipped, a 200-byte memtable budget)."),
+     text="At every node of every sequence up to the stated depth (snapshots, iterators, seek compactions, reopen) where nothing pins old versions, the three directories must hold exactly CURRENT, LOCK, the current manifest, needed WALs and the tables of the current layout; live tables must exist whenever a snapshot/iterator is held; no read concurrent with compaction + deletion touches a removed file. Schedule x crash: a crash image recovered at every file removal of every explored schedule holds the acknowledged writes. Schedule x fault: a reader whose own table reads fail races with flushes/compactions installing versions; afterwards (fault disarmed, all compacted, background idle) the directories again hold exactly the needed files; the same without a fault for readers whose answer is 'not found'. Crash part: every crash image of the covering histories is recovered and the directories must be exact as soon as the recovery's background work is idle, before any operation, and again after probe writes and a flush. Every crash image is also recovered with other options than it was written with (log reuse flipped, a 200-byte memtable budget). An operation closes the database while an iterator is alive and opens it again at once: the open is refused, or the new owner rewrites and compacts everything without taking anything from the old iterator."),
   "C12": dict(level="exploration", design="§5 C12", note=COMP_NOTE,
      technique="exhaustive enumeration of record-length sequences around the block arithmetic, writer re-open splits, truncation points and stop-between-fragments cases against the real LogWriter/LogReader",
      text="Bounded-exhaustive: all record-length triples placing the write position at every residue before a block end x second-record classes x re-open splits are written with the real writer and read back byte for byte; each file is truncated at every relevant byte; writer-died-between-fragments + append cases. A statement about all inputs of the enumerated families, not all inputs. Long logs: 3..9 blocks that each end in a 1..6-byte trailer followed by a record of 0 / 1 / 3 / 30 bytes."),
@@ -56,7 +56,7 @@ CLAIMED = {
      text="At every state reached by every operation sequence up to the stated depth (T300/T1/M2, optionally with a live snapshot) a fresh iterator of every view runs every cursor program up to the stated length over seek(key or gap key)/seek_to_first/seek_to_last/next/prev; validity, key and value are compared with a cursor over the sorted model after every step; plus full forward/backward scans. Hot-key families: the start state holds 130 versions of the middle key (memtable and, under a live snapshot, tables); cursor programs of length 3 on top."),
   "C08": dict(level="fault_enumeration", design="§5 C08", note=CRASH_NOTE,
      technique="exhaustive single-fault enumeration: for every position of one failing filesystem call (once / sticky) in the call stream of recorded histories, re-execution on the real DB with a candidate-set oracle",
-     text="For three covering histories and all generated histories up to a depth: the uninjected run numbers the filesystem calls (create, write/append, rename, remove, open, size); for every index and both modes the history is re-executed with that call failing; API results must be Ok/Err (no panic, no hang), reads (gets, a long-lived iterator whose failed seek is retried once, full forward and backward scans) must be explained by a candidate state (Ok writes applied; a scan without an error is complete), and after disarming + reopen the contents must be a candidate; runs in which only the read side fails (open / read) over compactions whose inputs come from a cold table cache; the log writer and the table builder under a failing file. Schedule part (schedule x fault): all schedules within the bound of 20 writer/reader thread programs with a fault by file kind (once / sticky / only one thread's calls); judged by linearizability with failed calls optional and by per-key durability after a fault-free reopen. A failing write is also tried leaving half, all but one byte, or exactly one log-record header of its buffer in the file (sequential enumeration over the covering histories; schedule x fault programs with a half-written manifest record while a compaction is in flight)."),
+     text="For three covering histories and all generated histories up to a depth: the uninjected run numbers the filesystem calls (create, write/append, rename, remove, open, size); for every index and both modes the history is re-executed with that call failing; API results must be Ok/Err (no panic, no hang), reads (gets, a long-lived iterator whose failed seek is retried once, full forward and backward scans) must be explained by a candidate state (Ok writes applied; a scan without an error is complete), and after disarming + reopen the contents must be a candidate; runs in which only the read side fails (open / read) over compactions whose inputs come from a cold table cache; the log writer and the table builder under a failing file. Schedule part (schedule x fault): all schedules within the bound of 20 writer/reader thread programs with a fault by file kind (once / sticky / only one thread's calls); judged by linearizability with failed calls optional and by per-key durability after a fault-free reopen. A failing write is also tried leaving half, all but one byte, or exactly one log-record header of its buffer in the file (sequential enumeration over the covering histories; schedule x fault programs with a half-written manifest record while a compaction is in flight). In the schedule x fault programs the table files created after the single injected failure of a manifest write are counted (the background thread must not go on producing files in the error state); three programs let a rotating writer's WAL append fail while a manual compaction is in flight."),
   "C13": dict(level="exploration", design="§5 C13", note=COMP_NOTE,
      technique="exhaustive enumeration of sorted entry sets x block sizes against the real TableBuilder/Table, vector-model oracle for iteration, seek, get and cursor programs",
      text="Bounded-exhaustive: every subset of up to 3 (thorough 4) of 8 boundary user keys x 5 version patterns per key x 5 block sizes; forward/backward iteration, every (key, sequence) probe for seek and get (Value/Deleted/NotInFile), and every short cursor program agree with the vector model; plus long runs of 15..100 shared-prefix keys (several restart points per block) and keys / values whose lengths sit on the varint boundaries (127/128, 16383/16384, 70000). Plus the filter-layout tables of C14 (3000-byte values, 1-byte blocks, a sweep of the first block's length over a 2 KiB window so that the following blocks start at every residue of the filter ranges), read through the Bloom filter."),
@@ -65,10 +65,10 @@ CLAIMED = {
      text="Bounded-exhaustive: all multisets of size 0..2 (thorough 3) over 40 short byte strings plus generated sets up to 5000 keys, for every bits_per_key 1..=64, 100, 1000 (also read by a policy built with another bits_per_key): every member may-match; for every enumerated table layout every user key of every data block may-match the filter consulted with that block's offset and every stored (key, seq) is found by get."),
   "C15": dict(level="fault_enumeration", design="§5 C15", note=CRASH_NOTE,
      technique="exhaustive single-byte corruption enumeration over every offset of every file of small database images, each opened and read completely with the real DB; error-or-correct oracle",
-     text="Fifteen small images (tables on three levels, WAL only, after a multi-output compaction, multi-block WAL record, fresh-manifest snapshot, six levels with many manifest edits, one-entry tables with a permissive filter, 4500-byte keys with a fragmented manifest record, tombstones + rotation, six images whose damaged block is the last entry a compaction merges): every offset of every file x {each bit flipped, 0x00, 0xff, +1} and table truncations; open, all gets, forward and backward scans, direction-changing cursor programs, and - for a damaged table - the gets again after a compaction of everything must each be an error or correct (WAL: damaged records may be skipped). One image's value carries the byte image of a complete log record at the offset where a reader that trusts a damaged length field would resume."),
+     text="Fifteen small images (tables on three levels, WAL only, after a multi-output compaction, multi-block WAL record, fresh-manifest snapshot, six levels with many manifest edits, one-entry tables with a permissive filter, 4500-byte keys with a fragmented manifest record, tombstones + rotation, six images whose damaged block is the last entry a compaction merges): every offset of every file x {each bit flipped, 0x00, 0xff, +1} and table truncations; open, all gets, forward and backward scans, direction-changing cursor programs, and - for a damaged table - the gets again after a compaction of everything must each be an error or correct (WAL: damaged records may be skipped). One image's value carries the byte image of a complete log record at the offset where a reader that trusts a damaged length field would resume. A positioning call (seek, seek_to_first, seek_to_last) that returns Ok and leaves a valid iterator is judged at once - it must stand on the right entry - without consulting take_error."),
   "C17": dict(level="model_checking", design="§5 C17", note=SCHED_NOTE,
      technique="exhaustive preemption/deviation-bounded schedule DFS of open/close/destroy programs on the real TmpFileSystem (flock), every filesystem call a switch point",
-     text="All schedules within the bound of 26 programs of 2-3 threads (open+hold, open+put+close, open with error_if_exists / without create_if_missing, destroy_database, a WAL write failing at close) from initial states absent/closed/open: never two live handles; while open elsewhere every open and destroy fails and the owner is undisturbed (it can still flush and write); exactly one of racing holders succeeds; attempts that fail do not keep the lock; every handle still open at the end is a working database. Three programs start from states in which a background compaction is due (three level-0 tables + a WAL; two overlapping level-0 tables and an owner that does 100 gets): the compaction thread is parked by gates in the harness filesystem until the owner closes, a second actor keeps trying to open; after a successful open no thread that existed before that open began may create, rename or remove a file (C17.previous_owner_still_writing), and no earlier instance may have work pending (C17.open_during_close)."),
+     text="All schedules within the bound of 26 programs of 2-3 threads (open+hold, open+put+close, open with error_if_exists / without create_if_missing, destroy_database, a WAL write failing at close) from initial states absent/closed/open: never two live handles; while open elsewhere every open and destroy fails and the owner is undisturbed (it can still flush and write); exactly one of racing holders succeeds; attempts that fail do not keep the lock; every handle still open at the end is a working database. Three programs start from states in which a background compaction is due (three level-0 tables + a WAL; two overlapping level-0 tables and an owner that does 100 gets): the compaction thread is parked by gates in the harness filesystem until the owner closes, a second actor keeps trying to open; after a successful open no thread that existed before that open began may create, rename or remove a file (C17.previous_owner_still_writing), and no earlier instance may have work pending (C17.open_during_close). A scheduling point inside lock_file (between opening and locking the LOCK file, cfg-guarded hook) exposes opens that race with destroy_database's unlink; the background thread of a failed open must end without a panic."),
 }
 
 NOT_APPLICABLE = {
